@@ -312,7 +312,7 @@ Proof.
   destruct xs as [|x1 [|x2 [|x3 xs]]]; try discriminate.
   - destruct x1; discriminate.
   - destruct x1; try discriminate. cbn [ll_elem_ok] in Ha.
-    apply andb_true_iff in Ha. destruct Ha as [Ha _]. apply andb_true_iff in Ha. destruct Ha as [_ Hn].
+    apply andb_true_iff in Ha. destruct Ha as [_ Hn].
     destruct x2; try reflexivity. discriminate.
   - destruct x1; discriminate.
 Qed.
@@ -331,6 +331,13 @@ Proof.
     + destruct b1; reflexivity.
     + destruct b1; try reflexivity. discriminate.
   - cbn [app]. cbn [orb] in H3. destruct body as [|b1 bs]; [discriminate|]. reflexivity.
+Qed.
+
+(* the lambda list is written as it is: a default value is a form and stays that form (not its load form) *)
+Lemma lambda_list_verbatim : forall ll doc body,
+  exists rest, load_form (Lam ll doc body) = Ok (L (Sym "lambda" :: mkL ll :: rest)) /\ elems_of (mkL ll) = Some ll.
+Proof.
+  intros ll doc body. eexists. split; [reflexivity|]. destruct ll; reflexivity.
 Qed.
 
 (* ---- the main theorem ---- *)
